@@ -32,6 +32,7 @@ func nsAlphabet() []fsx.Op {
 			fsx.Op{K: "MKDIR", H: d, N: "b"},
 			fsx.Op{K: "REMOVE", H: d, N: "a"},
 			fsx.Op{K: "RMDIR", H: d, N: "b"},
+			fsx.Op{K: "REMOVE", H: d, N: "b"}, // REMOVE applied to a directory (the server accepts it for an empty one)
 		)
 	}
 	al = append(al,
@@ -154,6 +155,19 @@ func c02AfterOff(w *World, path []fsx.Op, r fsx.Reply, implFail bool, mis *reffs
 func init() {
 	RegisterSeq("c02.off", &SeqSpec{Prop: "C02", DiskSize: 6000, Setup: []fsx.Op{{K: "CREATE", H: "root", N: "f"}}, Alphabet: offAlphabet(), After: c02AfterOff,
 		Key: func(w *World) string { w.Probe = offProbe(); return w.defaultKey() }})
+	// a directory of 40 names of the maximal length (five blocks): lookups, creations of existing names, removals and
+	// renames after the name cache was rebuilt (restart, abort)
+	pad := func(n string) string {
+		for len(n) < 112 {
+			n += "_"
+		}
+		return n
+	}
+	RegisterSeq("c02.longnames", &SeqSpec{Prop: "C02", DiskSize: 3000, After: c02After,
+		Setup: []fsx.Op{{K: "MKDIR", H: "root", N: "d"}, {K: "CREATEMANY", H: "root/d", N: "L", Cnt: 40, Len: 112}},
+		Alphabet: []fsx.Op{{K: "RESTART"}, {K: "CREATE", H: "root/d", N: pad("L039")}, {K: "LOOKUP", H: "root/d", N: pad("L038"), As: "_"}, {K: "LOOKUP", H: "root/d", N: pad("L000"), As: "_"}, {K: "MKDIR", H: "root/d", N: pad("L020")},
+			{K: "REMOVE", H: "root/d", N: pad("L039")}, {K: "REMOVE", H: "root/d", N: pad("L017")}, {K: "RENAME", H: "root/d", N: pad("L001"), H2: "root/d", N2: pad("L038")},
+			{K: "CREATE", H: "root/d", N: pad("new")}, {K: "CREATE", H: "root/d", N: nameOfLen(200, 'q')}, {K: "REMOVETHIRD", H: "root/d"}}})
 	RegisterSeq("c02.names", &SeqSpec{Prop: "C02", DiskSize: 3000, Alphabet: nameAlphabet(), After: c02After})
 	RegisterSeq("c02.ns", &SeqSpec{Prop: "C02", DiskSize: 3000, Alphabet: nsAlphabet(), After: c02After})
 	RegisterSeq("c02.ns.xdr", &SeqSpec{Prop: "C02", DiskSize: 3000, Alphabet: nsAlphabet(), After: c02After, ViaXDR: true})
@@ -166,11 +180,12 @@ func C02(r *report.Report, tier string) {
 	if tier == "thorough" {
 		depth, offDepth, nameDepth = 6, 3, 3
 	}
-	r.Rule = fmt.Sprintf("breadth-first search over all operation sequences of length <=%d of a %d-symbol namespace/data alphabet on the real server (state = reference model + installed disk content + allocator cursors + inode cache, deduplicated); after every transition: the reply against the reference file system, an observation sweep (LOOKUP of every name incl. . and .., GETATTR, ACCESS, READ, READLINK, READDIR, READDIRPLUS, dead handles) and a full-tree dump comparison incl. handles; the same alphabet once more with every request (incl. the sweep and the dump) XDR-encoded, dispatched by procedure number through the registration table and its reply XDR-decoded; distinct_nontrivial = distinct states reached", depth, len(nsAlphabet()))
+	r.Rule = fmt.Sprintf("breadth-first search over all operation sequences of length <=%d of a %d-symbol namespace/data alphabet on the real server (state = reference model + installed disk content + allocator cursors + inode cache, deduplicated); after every transition: the reply against the reference file system, an observation sweep (LOOKUP of every name incl. . and .., GETATTR, ACCESS, READ, READLINK, READDIR, READDIRPLUS, dead handles) and a full-tree dump comparison incl. handles; the same alphabet once more with every request (incl. the sweep and the dump) XDR-encoded, dispatched by procedure number through the registration table and its reply XDR-decoded; a further search from a directory of 40 names of the maximal length; a restart is a clean shutdown without any flush or idle time first (after a COMMIT if unstable writes are outstanding); distinct_nontrivial = distinct states reached", depth, len(nsAlphabet()))
 	s1 := RunSeq(r, "c02.ns", depth)
 	s2 := RunSeq(r, "c02.ns.nounstable", depth-1)
 	s3 := RunSeq(r, "c02.names", nameDepth)
 	s4 := RunSeq(r, "c02.off", offDepth)
 	s5 := RunSeq(r, "c02.ns.xdr", depth-1)
-	r.Extra["searches"] = []*SeqSummary{s1, s2, s3, s4, s5}
+	s6 := RunSeq(r, "c02.longnames", depth-2)
+	r.Extra["searches"] = []*SeqSummary{s1, s2, s3, s4, s5, s6}
 }
